@@ -488,6 +488,47 @@ func Run(c *vk.Ctx) {
 	}
 	nPref := k.totalBuffers - nHeads - nSubst
 
+	// ---- totality space 4: runs of legacy prefixes (1..15 bytes: one prefix repeated, or two
+	// alternating) followed by every byte value, then the tails — the bookkeeping of the prefix array
+	legacy := prefixBytes[:11]
+	runBlock := func(run []byte) {
+		if !mine() {
+			return
+		}
+		h := copy(buf[:], run)
+		if h >= 16 {
+			return
+		}
+		for b := 0; b < 256; b++ {
+			buf[h] = byte(b)
+			for _, t := range tails {
+				for i := h + 1; i < 16; i++ {
+					buf[i] = t
+				}
+				k.allLens("prefix-runs", buf[:])
+			}
+		}
+	}
+	for n := 1; n <= 15; n++ {
+		run := make([]byte, n)
+		for i, p := range legacy {
+			for j := range run {
+				run[j] = p
+			}
+			runBlock(run)
+			for _, q := range legacy[i+1:] {
+				for j := range run {
+					run[j] = p
+					if j%2 == 1 {
+						run[j] = q
+					}
+				}
+				runBlock(run)
+			}
+		}
+	}
+	nRuns := k.totalBuffers - nHeads - nSubst - nPref
+
 	keys := make([]string, 0, len(k.groups))
 	for key := range k.groups {
 		keys = append(keys, key)
@@ -521,6 +562,7 @@ func Run(c *vk.Ctx) {
 	x["n_total_buffers_heads"] = nHeads
 	x["n_total_buffers_subst"] = nSubst
 	x["n_total_buffers_prefix"] = nPref
+	x["n_total_buffers_prefix_runs"] = nRuns
 	x["n_subst_encodings"] = nSubstEnc
 	x["n_prefix_encodings"] = nPrefEnc
 	if !thorough {
